@@ -8,7 +8,7 @@ func HarnessC19a() {
 	N := verifBound("N")
 	bf := uint(verifBound("BF"))
 	st := newVStore("s1")
-	cfg := symConfig(st, nil)
+	cfg := symConfig(st, mkCache(verifBoundOr("CACHE", 0))) // CACHE=1: the loader shares the writer's (warm) node cache
 	fm := verifBoundOr("FMT", 0) // 0 binary, 1 v1marshaler (raw two-stage decode), 2 v1marshaler (registered types)
 	cfg.UnmarshalerUsesRegisteredTypes = fm == 2
 	encodeTop := func(keys, vals []uint64, links []string) []byte {
@@ -38,7 +38,19 @@ func HarnessC19a() {
 	buildAscending("build", t, md, N)
 	r, err := t.MakeRoot(vctx)
 	verifAssert("C01.makeroot.err", err == nil)
-	if err != nil || r.Link == nil {
+	if err != nil {
+		return
+	}
+	if r.Link == nil {
+		// a root without a top node (never-populated or emptied tree): the format clause still applies
+		bad := *r
+		bad.NodeFormat = "v9.unknown"
+		var lerr error
+		panicked := verifPanics(func() { _, lerr = bad.LoadMast(vctx, cfg) })
+		verifAssert("C19.no-panic.unknown-format-empty-root", !panicked)
+		if !panicked {
+			verifAssert("C19.rejected.unknown-format-empty-root", lerr != nil)
+		}
 		return
 	}
 	var top *pnode
